@@ -320,3 +320,95 @@ def check(db, rep):
     # structured values are stored in the compact encoding: writer/reader agreement of that encoding is part of losslessness (shared with C16)
     from rules import C16
     C16.check(db, rep, rule_prefix='c16-', explain=False)
+    _independent_reads(db, rep)
+
+
+def _independent_reads(db, rep):
+    """r7: a key is read whether or not *another* key is present: no at("k") read is dominated by a contains("j") test with j != k
+    (a record with a missing optional key must still have its other keys restored), and a repeated/duplicate element is never dropped by the
+    reader of a sequence: element readers append unconditionally."""
+    from engine.cfgq import dominating_guards, normalise_cond
+    r7 = rep.rule('r7', 'INDEPENDENT-READS: whether a key is read never depends on the presence of a different key; sequence readers append every element', 20)
+
+    def lit_of(f, call):
+        if call.get('args'):
+            return _lit(f, f.stmts[call['args'][0]])
+        return None
+    n_reads = 0
+    for f in db.functions:
+        if not f.has_cfg() or not f.file or not f.file.endswith('JSON.cpp'):
+            continue
+        short = f.name.split('::')[-1]
+        ptype = f.rec['params'][-1]['type'].replace('const ', '').replace('&', '').strip().split('::')[-1] if f.rec['params'] else ''
+        seen = {}
+        for c in sorted(f.calls(), key=lambda x: (x.get('line', 0), x.get('col', 0))):
+            if not ((c.get('cs') or '').endswith('basic_json::at') and 'obj' in c):
+                continue
+            k = lit_of(f, c)
+            if k is None:
+                continue
+            n_reads += 1
+            inst = '%s(%s):%s' % (short, ptype, k)
+            seen[inst] = seen.get(inst, 0) + 1
+            if seen[inst] > 1:
+                inst += '#%d' % seen[inst]
+            pos = f.position_of(c)
+            other = None
+            from engine.shape import Keyer
+            K = Keyer(f)
+            okey = K.key(f.stmts[c['obj']])
+            work = list(dominating_guards(f, pos)) if pos is not None else []
+            while work:
+                g, pol = work.pop()
+                g = f.strip(g)
+                if g is not None and g['k'] == 'BinaryOperator' and g.get('op') in ('&&', '||'):
+                    work += [(x, pol) for x in f.children(g)]
+                    continue
+                g2, pol2 = normalise_cond(f, g, pol)
+                if g2 is not None and g2['k'] == 'CXXMemberCallExpr' and (g2.get('cs') or '').endswith('basic_json::contains'):
+                    j = lit_of(f, g2)
+                    # only a test on the *same* JSON object counts: contains("forms") around reads of the elements of "forms" is the parent being present
+                    if j is not None and j != k and 'obj' in g2 and K.key(f.stmts[g2['obj']]) == okey:
+                        other = j
+            # an unguarded read inside an element loop happens for every element: no path through the loop body may skip it
+            loops = [a for a in f.ancestors(c) if a['k'] in ('ForStmt', 'CXXForRangeStmt', 'WhileStmt')]
+            skipped = False
+            if not other and loops and pos is not None:
+                lp = loops[0]
+                body = f.stmts[lp['body']]
+                inside = {x['id'] for x in f.walk(body)}
+                guards_in = [g for g, pol in dominating_guards(f, pos) if g['id'] in inside or any(a['id'] in inside for a in f.ancestors(g))]
+                if not guards_in:
+                    from engine.cfgq import cond_edges
+                    first = None
+                    for bid_, c_, t_, fl_ in cond_edges(f):
+                        if 'cond' in lp and c_ is not None and c_['id'] == lp['cond'] and t_ is not None:
+                            first = (t_, 0)
+                    cont = f.position_of(f.stmts[lp['inc']]) if 'inc' in lp else None
+                    if first is not None and cont is not None:
+                        from engine.cfgq import paths_avoiding
+                        skipped = bool(paths_avoiding(f, [first], [pos], [(cont, '')]))
+            if skipped:
+                r7.violation(inst, f.loc(c), 'the read of "%s" is skipped for some elements of the stored array (a path through the loop body reaches the next element without it): those records lose "%s" on loading' % (k, k))
+                continue
+            if other:
+                r7.violation(inst, f.loc(c), 'whether "%s" is read depends on the presence of the key "%s": a record without "%s" loses "%s" on loading' % (k, other, other, k))
+            else:
+                r7.ok(inst, 'read independently of other keys', f.loc(c), nontrivial=False)
+    # sequence readers: PushBack / push_back / emplace_back / insert of a decoded element is not guarded by a lookup of the element among those already read
+    for f in db.functions:
+        if not f.has_cfg() or not f.file or not f.file.endswith('JSON.cpp') or f.name.split('::')[-1] != 'from_json':
+            continue
+        ptype = f.rec['params'][-1]['type'].replace('const ', '').replace('&', '').strip().split('::')[-1]
+        loops = [n for n in f.walk() if n['k'] in ('ForStmt', 'CXXForRangeStmt')]
+        for lp in loops:
+            adds = [c for c in f.calls(f.stmts[lp['body']]) if (c.get('cs') or '').split('::')[-1] in ('PushBack', 'push_back', 'emplace_back', 'Insert', 'insert', 'emplace', 'InsertCopy', 'Emplace') and 'obj' in c]
+            for c in adds:
+                pos = f.position_of(c)
+                inside = [(g, pol) for g, pol in (dominating_guards(f, pos) if pos is not None else []) if any(y is g or any(z is g for z in f.walk(y)) for y in f.walk(f.stmts[lp['body']]))]
+                inst = 'from_json(%s):append' % ptype
+                if inside:
+                    r7.violation(inst, f.loc(c), 'an element of the stored sequence is appended only if `%s`: equal or already-known elements are dropped, so positions (ids) of the following elements shift' % inside[0][0].get('txt', '')[:60])
+                else:
+                    r7.ok(inst, 'every element of the stored sequence is appended', f.loc(c))
+    rep.note('key_reads', n_reads)
